@@ -173,7 +173,14 @@ def ig_db(b, d, header_text, names, promiscuous, with_enum):
                 if m:
                     info["enum"].setdefault(m.group(1), {})[m.group(2)] = ev["value"]
     want = set(names)
+    # a class template is judged through `typedef CkT<int> Ck;`: the record of the instantiation stands for Ck
+    alias = {}
     for t in db.types.values():
+        if t["name"] in want and t["is_typedef"] and t["wrapped_type"] in db.types:
+            alias[t["wrapped_type"]] = t["name"]
+    for t in db.types.values():
+        if t["index"] in alias and (t["is_struct"] or t["is_class"]) and t["is_fully_defined"]:
+            t = dict(t, name=alias[t["index"]], true_name=alias[t["index"]])
         if t["name"] in want and (t["is_struct"] or t["is_class"]) and t["is_fully_defined"] \
                 and t["true_name"] == t["name"]:
             n_def = n_copy = n_all = 0
@@ -418,6 +425,12 @@ def steps(model, target):
                 for nr in [x["ref"] for x in r["bases"]] + [x["ref"] for x in r["members"] if x.get("ref")]:
                     ops.append(("mref", c["name"], m["id"], nr))
     for c in model["classes"]:
+        if c.get("tmpl"):
+            ops.append(("untemplate", c["name"]))
+        for e in c["bases"] + [m for m in c["members"] if m.get("ref")]:
+            if e.get("targ") == "int":
+                ops.append(("aliasref", c["name"], e["ref"]))
+    for c in model["classes"]:
         if c["kw"] == "class":
             ops.append(("kwcanon", c["name"]))
             ops.append(("kw", c["name"]))
@@ -464,6 +477,22 @@ def apply_op(model, op):
         n = len(c["members"])
         c["members"] = [x for x in c["members"] if x["id"] != op[2]]
         return m if len(c["members"]) != n else None
+    if k == "untemplate":       # an ordinary class of the same shape (T becomes int)
+        if not c.get("tmpl"):
+            return None
+        c.pop("tmpl")
+        for o in m["classes"]:
+            for e in o["bases"] + o["members"]:
+                if e.get("ref") == op[1]:
+                    e.pop("targ", None)
+        return m
+    if k == "aliasref":         # name the instantiation through its typedef instead of the template-id
+        done = False
+        for e in c["bases"] + c["members"]:
+            if e.get("ref") == op[2] and e.get("targ") == "int":
+                e.pop("targ")
+                done = True
+        return m if done else None
     if k == "kw":
         if c["kw"] != "class":
             return None
@@ -616,6 +645,8 @@ def cause_of(cat, what, got, via, feats):
     ctorish = what in ("dc", "cc", "default-ctor", "copy-ctor")
     over = got in (1, "exported")          # interrogate says yes / exports, C++ says no
     under = got in (0, "missing")
+    if "dependent-base" in bare and under and "template" in bare:
+        return "dependent-base-class-not-instantiated"
     if what in ("dc", "default-ctor") and over and len(bare) == 1 and bare <= CONST_MEMBERS:
         return "const-member-no-init"
     if over and (set(feats) & DEFAULTED.get(what, set())):
